@@ -563,3 +563,7 @@ def run(ck):
     gzkeys = {k for k in condparity.PAIRS if k.startswith("gz")}
     ck.floor("SIB/ref-conditions", condparity.check(ck, prog("K1"), "SIB/ref-conditions", only=gzkeys), 250)
     ck.assumptions += ["rustc MIR", "effect vocabulary and exception list in rules/props/c17.py", "K1 and K2 (gz feature)"]
+
+# session 5 (round 10)
+EXPLANATION = EXPLANATION + " " + (
+    'GUARD/start-recorded: the position query that feeds GzState.start in gzopen_help is decided by mode and fd only, so every read handle - also one from gzdopen - rewinds to where its stream starts.')
